@@ -91,6 +91,17 @@ func c18Cases(tier string, seed uint64, flavor string) []lib.Case {
 			}
 		}
 	}
+	if tier == "thorough" {
+		r := lib.NewRng(lib.Mix(seed, 183))
+		for k := 0; k < 30000; k++ {
+			ss := r.PickI64([]int64{0, 1, lib.BS - 1, lib.BS, lib.BS + 1, 2 * lib.BS, 3*lib.BS + 77, 6 * lib.BS, int64(r.Range(0, 6*lib.BS))})
+			s := c18Spec{Seed: lib.Mix(seed, 184, uint64(k)), SSize: ss, DKind: "random", Slice: r.PickInt(c18Slices), Mode: modes[k%4]}
+			if ss <= lib.BS && k%10 == 0 {
+				s.Slice = 1
+			}
+			cases = append(cases, lib.Case{Seed: s.Seed, Kind: "random/" + s.Mode, Spec: lib.MustSpec(s)})
+		}
+	}
 	// runs of differing blocks around and beyond the 64-block (4 MiB) wound aggregation limit
 	big := int64(70*lib.BS + 123)
 	for _, run := range []int{63, 64, 65, 66, 69, 70} {
@@ -191,6 +202,29 @@ func c18Run(c lib.Case, env *lib.Env) lib.Result {
 		D = append(D, S[min(len(S), (s.Arg+2)*lib.BS):]...)
 	case "extend":
 		D = append(append([]byte(nil), S...), lib.RandomBytes(int64(s.Arg), lib.Mix(s.Seed, 3))...)
+	case "random": // per block: keep / flip / delete / duplicate; then maybe cut or extend the tail
+		D = nil
+		for b := 0; b < nbS; b++ {
+			blk := append([]byte(nil), blockOf(S, b)...)
+			switch r.Intn(8) {
+			case 0:
+				blk[r.Intn(len(blk))] ^= 0x04
+				D = append(D, blk...)
+			case 1: // deleted
+			case 2:
+				D = append(append(D, blk...), blk...)
+			default:
+				D = append(D, blk...)
+			}
+		}
+		switch r.Intn(5) {
+		case 0:
+			if len(D) > 0 {
+				D = D[:r.Intn(len(D))]
+			}
+		case 1:
+			D = append(D, lib.RandomBytes(int64(r.PickInt([]int{1, 100, lib.BS - 1, lib.BS, lib.BS + 1})), r.Uint64())...)
+		}
 	case "garble-run": // Arg contiguous differing blocks starting at block 1 (longer than the 4 MiB aggregation limit)
 		D = append([]byte(nil), S...)
 		for b := 1; b <= s.Arg && b < nbS; b++ {
